@@ -73,6 +73,9 @@ def _clone(n, idmap, subst):
             out[k] = idmap[v]
         else:
             out[k] = _clone(v, idmap, subst)
+    if n.get('id') in idmap and isinstance(n.get('name'), str) and n.get('k') in ('ref', 'var'):
+        # the copy of a helper's local is a different variable: it also prints differently (rules compare operand texts)
+        out['name'] = n['name'] + idmap[n['id']][len(n['id']):]
     if out.get('k') == 'ref' and out.get('kind') == 'param' and n.get('id') in idmap:
         out['kind'] = 'var'
     return out
@@ -465,16 +468,30 @@ class _Inliner:
         return pre, ne
 
 
-def _rename_refs(n, ren):
+def _rename_refs(n, ren, names=None):
+    if names is None:
+        names = {}
     if isinstance(n, list):
-        return [_rename_refs(x, ren) for x in n]
+        return [_rename_refs(x, ren, names) for x in n]
     if not isinstance(n, dict):
         return n
-    out = {k: _rename_refs(v, ren) for k, v in n.items()}
+    out = {k: _rename_refs(v, ren, names) for k, v in n.items()}
     if out.get('k') == 'ref' and out.get('id') in ren:
         out['was'] = out.get('name')
         out['id'] = ren[out['id']]
+        if out['id'] in names:
+            out['name'] = names[out['id']]
     return out
+
+
+def _names_of(body, params=()):
+    names = {p_['id']: p_.get('name', '') for p_ in params if p_.get('id')}
+    for n in SX.walk(body):
+        if n['k'] == 'var' and n.get('id'):
+            names[n['id']] = n.get('name', '')
+        if n['k'] == 'forrange' and SX.is_node(n.get('var')) and n['var'].get('id'):
+            names[n['var']['id']] = n['var'].get('name', '')
+    return names
 
 
 def _sroa(prog, body):
@@ -544,6 +561,13 @@ def _sroa(prog, body):
     return rw(body), len(cands)
 
 
+_PROG = [None]
+_STD_BYVALUE = ('std::to_string', 'std::abs', 'std::sqrt', 'std::norm', 'std::min', 'std::max', 'std::floor', 'std::ceil', 'std::pow', 'std::exp', 'std::cos',
+                'std::sin', 'std::real', 'std::imag', 'std::conj', 'std::isspace', 'std::isdigit', 'std::isalpha', 'std::isalnum')
+NAMES = [{}]
+_PARAMS = [()]
+
+
 def _writes_of(s):
     ws = set()
     for n in SX.walk(s):
@@ -555,10 +579,24 @@ def _writes_of(s):
         if n['k'] == 'un' and n.get('op') in ('&', '++', '--') and SX.is_node(SX.strip(n.get('e'))) and SX.strip(n['e']).get('k') == 'ref':
             ws.add(SX.strip(n['e']).get('id'))
         if n['k'] in ('call', 'mcall', 'construct', 'opcall'):
-            # a local handed to a callee may be bound to a non-const reference: treat as written
-            for a_ in (n.get('args') or []):
+            # a local handed to a callee may be bound to a non-const reference: treat as written — unless the callee is resolved
+            # and takes that argument by value or by const reference
+            ptypes = None
+            if n['k'] == 'call' and (n.get('callee') or '').split('<')[0] in _STD_BYVALUE:
+                continue
+            if n['k'] == 'construct' and (n.get('type') or '').startswith(('std::basic_string', 'std::string', 'std::complex', 'std::vector')):
+                continue
+            if n['k'] == 'opcall' and n.get('op') not in ('>>', '()'):
+                continue      # operator arguments are taken by value / const reference (the left operand is covered by write_target)
+            if _PROG[0] is not None and n['k'] in ('call', 'mcall'):
+                ts = [t for t in _PROG[0].resolve(n)]
+                if ts and all(len(t.params) == len(SX.real_args(n)) for t in ts):
+                    ptypes = [[(p_.get('type') or '').strip() for p_ in t.params] for t in ts]
+            for j_, a_ in enumerate(SX.real_args(n) if n['k'] in ('call', 'mcall') else (n.get('args') or [])):
                 a_ = SX.strip(a_)
                 if SX.is_node(a_) and a_.get('k') == 'ref' and a_.get('kind') in ('var', 'param') and not (a_.get('t') or '').startswith('const'):
+                    if ptypes is not None and all((not pt[j_].endswith(('&', '*'))) or pt[j_].startswith('const') for pt in ptypes):
+                        continue
                     ws.add(('arg', a_.get('id')))
     return ws
 
@@ -568,6 +606,7 @@ def _copyprop(body):
     x (v's scope ends with the block, and a loop around the block re-executes the declaration)"""
     allw = _writes_of(body)
     total = [0]
+    NAMES[0] = _names_of(body, _PARAMS[0])
 
     def block(b):
         if isinstance(b, list):
@@ -580,11 +619,17 @@ def _copyprop(body):
         top = b['body']
         written = [_writes_of(s) for s in top]
         ren, drop = {}, set()
+        consts = {}
         for i, s in enumerate(top):
             if s['k'] != 'decls' or len(s['d']) != 1:
                 continue
             v = s['d'][0]
             init = SX.strip(v.get('init')) if SX.is_node(v.get('init')) else None
+            if init is not None and v.get('from_param') and init.get('k') in ('bool', 'int', 'float', 'char', 'str') and \
+                    v['id'] not in allw and ('arg', v['id']) not in allw and not (v.get('type') or '').rstrip().endswith('&'):
+                consts[v['id']] = init      # a literal passed by value to an inlined helper: the parameter is that literal
+                drop.add(i)
+                continue
             if not (init is not None and init.get('k') == 'ref' and init.get('kind') in ('var', 'param') and init.get('id')):
                 continue
             vt_ = (v.get('type') or '').rstrip()
@@ -600,10 +645,13 @@ def _copyprop(body):
                 continue
             ren[v['id']] = src
             drop.add(i)
-        if not ren:
+        if not ren and not consts:
             return b
-        total[0] += len(ren)
-        return dict(b, body=[_rename_refs(s, ren) for i, s in enumerate(top) if i not in drop])
+        total[0] += len(ren) + len(consts)
+        nb_ = [_rename_refs(s, ren, NAMES[0]) for i, s in enumerate(top) if i not in drop]
+        if consts:
+            nb_ = [_clone(s, {}, consts) for s in nb_]
+        return dict(b, body=nb_)
     nb = block(body)
     return nb, total[0]
 
@@ -623,9 +671,12 @@ def normalise(prog, f, depth=3, keep=(), only=None):
         nb = dict(f.body, body=inl.stmts(f.body['body'], frozenset([f.key]), depth))
         if inl.count:
             if inl.renames:
-                nb = _rename_refs(nb, inl.renames)
+                nb = _rename_refs(nb, inl.renames, _names_of(nb, f.params))
             nb, ns = _sroa(prog, nb)
+            _PROG[0] = prog
+            _PARAMS[0] = f.params
             nb, nc = _copyprop(nb)
+            _PROG[0] = None
             res = copy.copy(f)
             res.body = nb
             res.d = dict(f.d, body=nb)
